@@ -47,6 +47,8 @@ theorem applyRes_no_crash (cfg : Cfg) (pol : Policy) (step : Nat) (tickEv : Ev) 
   | failed exc failedAt =>
     simp only [applyRes]
     split
+    · exact h
+    split
     · simp [h]
     all_goals
       split
